@@ -77,19 +77,19 @@ Definition p_avro_longs (x out : list (list Z)) : bool :=
 Definition fty_of_code (c : Z) : fty :=
   if Z.eqb c 0 then FPrim else if Z.eqb c 1 then FBin else if Z.eqb c 2 then FList FPrim
   else if Z.eqb c 3 then FStruct [FPrim] else if Z.eqb c 4 then FNull else if Z.eqb c 5 then FPrim
-  else if Z.eqb c 6 then FFsl FPrim else FBin.
+  else if Z.eqb c 6 then FFsl 2 FPrim else FBin.
 Fixpoint pairs (l : list Z) : list (Z * Z) :=
   match l with x :: y :: r => (x, y) :: pairs r | _ => [] end.
 Definition ipc_event (a : args) : ev :=
   fst (walk_fields (map fty_of_code (arg 0 a)) (argz 3 a) {| nodes := pairs (arg 1 a); bufs := pairs (arg 2 a) |}).
 Definition m_ipc_batch (a : args) : list (list Z) :=
-  match ipc_event a with Pass => [[0%Z]] | CursorErr => [[1%Z]] | NullLenErr => [[1%Z]] | BoundsPanic | ValidityPanic => [[2%Z]] end.
+  match ipc_event a with Pass => [[0%Z]] | CursorErr => [[1%Z]] | NullLenErr => [[1%Z]] | BoundsPanic | ValidityPanic | FslOverflowPanic => [[2%Z]] end.
 Definition p_ipc_batch (x out : list (list Z)) : bool :=
   let c := out_code out in
   match ipc_event x with
   | Pass => Z.eqb c 0 || Z.eqb c 1
   | CursorErr | NullLenErr => Z.eqb c 1
-  | BoundsPanic | ValidityPanic => Z.eqb c 2 || Z.eqb c 1
+  | BoundsPanic | ValidityPanic | FslOverflowPanic => Z.eqb c 2 || Z.eqb c 1
   end.
 
 (* ---- known-finding classifier *)
@@ -112,7 +112,8 @@ Definition known_panic_classes : list (string * list Z) := [
   ("arrow-ipc/src/reader.rs|called `Option::unwrap()` on a `None` value", ipc_kinds);
   ("arrow-ipc/src/reader.rs|assertion failed: variadic_counts.is_empty()", ipc_kinds);
   ("parquet/src/file/metadata/mod.rs|column start and length should not be negative", pq_kinds);
-  ("arrow-buffer/src/util/bit_chunk_iterator.rs|offset + len out of bounds", pq_kinds)
+  ("arrow-buffer/src/util/bit_chunk_iterator.rs|offset + len out of bounds", pq_kinds);
+  ("arrow-data/src/data.rs|integer overflow computing expected number of ex", ipc_kinds)
 ].
 Fixpoint class_index (k : Z) (cls : list Z) (tbl : list (string * list Z)) (i : Z) : Z :=
   match tbl with
